@@ -48,13 +48,56 @@ func AcceptConnection(conn net.Conn, manager cert.TlsConfig, secure bool, channe
 type ConnectionHandler struct {
 	session  *smux.Session
 	channels Channels
+	ended    chan struct{} // closed when the session has ended and no further logical connection is accepted
+}
+
+// carrierWatch ends the multiplexer session when a write to its carrier fails. The multiplexer stops sending for good
+// after a failed write, but it notices a lost carrier only while reading from it, and it neither reads nor lets its
+// keep-alive close the session while its receive buffer is full (a target that has stopped reading). A session in that
+// state whose peer is gone would otherwise stay, with the connections to its targets, for as long as the target stalls.
+type carrierWatch struct {
+	net.Conn
+	mutex   sync.Mutex
+	failed  bool
+	session *smux.Session
+}
+
+func (c *carrierWatch) Write(p []byte) (int, error) {
+	n, err := c.Conn.Write(p)
+	if err != nil {
+		c.mutex.Lock()
+		c.failed = true
+		session := c.session
+		c.mutex.Unlock()
+		if session != nil {
+			go session.Close()
+		}
+	}
+	return n, err
+}
+
+// watch names the session to end; a write may have failed before the session was known
+func (c *carrierWatch) watch(session *smux.Session) {
+	c.mutex.Lock()
+	c.session = session
+	failed := c.failed
+	c.mutex.Unlock()
+	if failed {
+		go session.Close()
+	}
 }
 
 // Create a logical mutex session of a pyhisical link
 func (ch *ConnectionHandler) HandleConnection(conn net.Conn) (err error) {
 	config := smux.DefaultConfig()
 	config.MaxFrameSize = buffers.BufferSize - 128
-	ch.session, err = smux.Server(conn, config)
+	carrier := &carrierWatch{Conn: conn}
+	ch.ended = make(chan struct{})
+	ch.session, err = smux.Server(carrier, config)
+
+	if err == nil {
+		carrier.watch(ch.session)
+	}
 
 	if err != nil {
 		if e := streams.LogClose(conn); e != nil {
@@ -70,6 +113,7 @@ func (ch *ConnectionHandler) HandleConnection(conn net.Conn) (err error) {
 
 // Accept a new logical stream and overlay endpoint selection on top of it
 func (ch *ConnectionHandler) acceptStream() {
+	defer close(ch.ended)
 	for true {
 		// Wait for next available stream
 		var stream net.Conn
@@ -111,6 +155,17 @@ func (ch *ConnectionHandler) muxHandler(protocol string, downstreamConnection io
 			// PipeData closes only the opposite end of whichever direction finishes first; when the target
 			// finishes first nobody else closes the connection we opened to it.
 			defer streams.TryClose(upstreamConnection)
+			// A copy blocked on a target that has stopped reading never gets back to the logical connection and so
+			// never notices that the session is gone: release the target when the session ends.
+			done := make(chan struct{})
+			defer close(done)
+			go func() {
+				select {
+				case <-ch.ended:
+					streams.TryClose(upstreamConnection)
+				case <-done:
+				}
+			}()
 			return streams.PipeData(downstreamConnection, upstreamConnection)
 		}
 	}
